@@ -64,6 +64,7 @@ def slice(ctx: fw.Ctx) -> fw.Outcome:
             cases.append((src, gen.render(src, rng, ic.prof(phrases=0.3, max_tracks=6, shuffle_sections=0.0, max_groups=5))))  # written in exactly this interleaved order
         else:
             cases.append((src, gen.render(src, rng, pm)))
+    cases += ic.revisit_cases(rng, ic.prof(garbage=0.0, flags=0.0), ctx.n(12, 1200))
     ic.run(ctx, out, cases, project, lambda tl: [(t["tick"], t["lanes"]) for t in tl], "note ticks and lanes",
            lambda src: any(len(g.lanes) + g.tap + g.forced >= 2 for tr in src.tracks for g in tr.groups))
     ic.stable_under_reads(ctx, out, cases, "note events")
